@@ -8,7 +8,7 @@ EXTENDS Universe, Json
 CONSTANT TypeSet
 VARIABLE x
 
-TS == TypesOf(TypeSet) \cup SerOnlyOf(TypeSet)
+TS == TypesOf(TypeSet) \cup SerOnlyOf(TypeSet) \cup {Norm(t) : t \in SerOnlyOf(TypeSet)}
 
 TypeInfo(t) ==
   [rec |-> "type", key |-> Key(t), rkey |-> Key(Norm(t)), desc |-> t,
